@@ -476,7 +476,25 @@ func ops() []op {
 		kind := kind
 		add("tx-statically-invalid:"+kind, true, func(c *mctx) (*blockchain.Block, bool) {
 			b := c.clone()
-			setTxs(b, append(append([]*blockchain.Transaction{}, b.Transactions...), badTx(kind)))
+			// the invalid transaction at a drawn position of a payload of 1-5 transactions (added after seeded change C03-r: a
+			// "parallelised" validation loop checked only the LAST transaction; the bad one used to be appended last, always)
+			txs := append([]*blockchain.Transaction{}, b.Transactions...)
+			for i := rapid.IntRange(0, 2).Draw(c.t, "paddingTxs"); i > 0 && len(txs) < 4; i-- {
+				txs = append(txs, node.MakeTx(12, uint64(5000+len(txs)), 7, node.TxOK, 0, rapid.IntRange(0, 6).Draw(c.t, "padTxPad")))
+			}
+			pos := rapid.IntRange(0, len(txs)).Draw(c.t, "badTxPosition")
+			txs = append(txs[:pos], append([]*blockchain.Transaction{badTx(kind)}, txs[pos:]...)...)
+			switch {
+			case len(txs) == 1:
+				evid.R.Label("bad-tx-only", 1)
+			case pos == len(txs)-1:
+				evid.R.Label("bad-tx-last", 1)
+			case pos == 0:
+				evid.R.Label("bad-tx-first", 1)
+			default:
+				evid.R.Label("bad-tx-middle", 1)
+			}
+			setTxs(b, txs)
 			rebuild(c, b)
 			return resigned(b, c.owner), true
 		})
@@ -718,6 +736,30 @@ func runCase(t *rapid.T) {
 	// valid successor B
 	sp := n.DrawSpec(t, opts, map[string]bool{})
 	sp.Agg = nil // mutation operators that target the aggregate commit bring their own
+	// Sometimes the successor's slot is chosen so that its owner is a generator WITHOUT BFT weight (standby) that already has a block in
+	// the window (added after seeded change C03-q: the contradiction rule was skipped for generators that are not BFT validators; such an
+	// owner with an earlier block came up too rarely for the maxHeightGenerated operator to meet it).
+	forceOp := ""
+	if rapid.Bool().Draw(t, "preferStandbyOwner") {
+		height := n.Tip().Header.Height + 1
+		gens := n.ScriptedGenerators(height)
+		if cur, err := n.CurrentParams(height); err == nil && len(gens) > len(cur.Idx) {
+			bft := map[int]bool{}
+			for _, ix := range cur.Idx {
+				bft[ix] = true
+			}
+			base := n.SlotOf(n.Tip().Header.Timestamp)
+			for gap := 1; gap <= len(gens); gap++ {
+				ix := gens[(base+gap)%len(gens)]
+				if !bft[ix] && n.LastGeneratedHeight(node.Keys()[ix].Addr) > 0 && base+gap < n.Cfg.SlotsBehind {
+					sp.SlotGap = gap
+					evid.R.Label("successor-by-standby-generator-with-earlier-block", 1)
+					forceOp = "maxHeightGenerated-contradicting"
+					break
+				}
+			}
+		}
+	}
 	valid, err := n.Build(sp)
 	if err != nil {
 		t.Fatalf("build: %v", err)
@@ -738,6 +780,13 @@ func runCase(t *rapid.T) {
 		ok := false
 		for try := 0; try < 4 && !ok; try++ { // redraw when the operator does not apply to this state
 			o = allOps[opTickets[int(rapid.Uint32().Draw(t, "op")%uint32(len(opTickets)))]]
+			if i == 0 && try == 0 && forceOp != "" {
+				for _, cand := range allOps {
+					if cand.name == forceOp {
+						o = cand
+					}
+				}
+			}
 			m, ok = o.build(c)
 			if !ok {
 				evid.R.Label("not-applicable", 1)
